@@ -463,8 +463,10 @@ class RequestHandler(BaseProtocol, Generic[_Request]):
         pass
 
     def data_received(self, data: bytes) -> None:
-        if self._force_close or self._close:
+        if (self._force_close or self._close) and not self._request_in_progress:
             return
+        # A closing connection starts no new request (see start()), but the
+        # request being handled may still be reading its body.
         # parse http messages
         messages: Sequence[_MsgType]
         if self._payload_parser is None and not self._upgraded:
